@@ -19,6 +19,7 @@ Anything outside the supported subset raises ``AnalysisError`` (exit 2), never a
 from __future__ import annotations
 
 import ast
+import enum as _enum
 import functools
 import re as _re
 from collections import ChainMap
@@ -492,6 +493,8 @@ class Interp(Folder):
             self.err(e, f"unknown module attribute {a}")
         if isinstance(v, str) and a in ("join", "format", "lower", "upper", "startswith", "endswith", "strip", "split", "replace"):
             return getattr(v, a)
+        if isinstance(v, _enum.Enum) and a in ("name", "value"):
+            return getattr(v, a)
         if isinstance(v, (str, int, float, bool)) and not hasattr(v, a):
             raise PyRaise("AttributeError", f"'{type(v).__name__}' object has no attribute '{a}'", e)
         if isinstance(v, (dict, list, set, tuple, type({}.keys()), type({}.values()), type({}.items()))):
@@ -502,6 +505,8 @@ class Interp(Folder):
             return None
         if v is None:
             raise PyRaise("AttributeError", f"'NoneType' object has no attribute '{a}'", e)
+        if isinstance(v, _enum.Enum) and a in ("name", "value"):
+            return getattr(v, a)
         if isinstance(v, _re.Pattern) and a in ("sub", "match", "fullmatch", "search", "split", "findall"):
             return getattr(v, a)
         return super().ev_Attribute(e, env)
